@@ -11,6 +11,8 @@ from pulsarbat import Phase
 
 from .. import exact, gen, probes
 
+from ..replay import wl_R
+
 RULE = ("monitors on the comparison branch of Phase.__array_ufunc__, on min/max/argmin/argmax/sort/argsort/ptp and on to_string/"
         "__format__/from_string judge every call against the ordering / value of exact Fractions. Workload: 1-d..3-d arrays (every "
         "axis and axis=None) with ties, near-ties (0, 2^-52, 2^-50, 1e-12, straddling half-integers) at counts up to 2^52 and mixed "
@@ -587,10 +589,16 @@ def wl_render(ctx, idx, rng):
     ctx.bucket("render", form, dec, fk, prec if form in (1, 2) else -1)
 
 
+def install_universal(ctx):
+    OrderMonitor(ctx).install()
+    StringMonitor(ctx).install()
+    return probes.detach_all
+
+
 def workloads(ctx):
     q = ctx.tier == "quick"
     base = len(DECADES) * len(TIES) * 8
-    return [("order", base * (12 if q else 60), wl_order), ("strings", 7500 if q else 60000, wl_strings),
+    return [("R", 1, wl_R), ("order", base * (12 if q else 60), wl_order), ("strings", 7500 if q else 60000, wl_strings),
             ("render", 6000 if q else 40000, wl_render)]
 
 
